@@ -187,4 +187,131 @@ theorem sortClusters_eq {c s : List (Nat × List Nat)} (p : c ~ s)
   rw [sortClusters_perm p hnd]
   exact List.mergeSort_of_pairwise hs
 
+/-! ### event-level interleavings -/
+
+/-- slots only ever hold the task's own value; array lengths are fixed -/
+def EvGood {β} (f : Nat → β) (n : Nat) (s : EvState β) : Prop :=
+  s.slots.length = n ∧ s.cells.length = n ∧ ∀ i v, s.slots[i]? = some (some v) → v = f i
+
+theorem evStep_write_some {β} (f : Nat → β) (s : EvState β) (j : Nat) (v : β)
+    (h : s.slots[j]? = some (some v)) :
+    evStep f s (Event.write j) = { s with cells := s.cells.set j v } := by
+  simp [evStep, h]
+
+theorem evStep_write_none {β} (f : Nat → β) (s : EvState β) (j : Nat)
+    (h : ∀ v, s.slots[j]? ≠ some (some v)) : evStep f s (Event.write j) = s := by
+  simp only [evStep]
+
+theorem evStep_write_cases {β} (f : Nat → β) (s : EvState β) (j : Nat) :
+    (∃ v, s.slots[j]? = some (some v) ∧ evStep f s (Event.write j) = { s with cells := s.cells.set j v }) ∨
+      evStep f s (Event.write j) = s := by
+  cases hs : s.slots[j]? with
+  | none => exact Or.inr (evStep_write_none f s j (by simp [hs]))
+  | some o =>
+    cases o with
+    | none => exact Or.inr (evStep_write_none f s j (by simp [hs]))
+    | some v => exact Or.inl ⟨v, rfl, evStep_write_some f s j v hs⟩
+
+theorem lt_of_getElem?_some {γ} {l : List γ} {i : Nat} {x : γ} (h : l[i]? = some x) : i < l.length := by
+  rcases Nat.lt_or_ge i l.length with hl | hl
+  · exact hl
+  · rw [List.getElem?_eq_none hl] at h; cases h
+
+theorem evGood_step {β} (f : Nat → β) (n : Nat) (s : EvState β) (e : Event) (h : EvGood f n s) :
+    EvGood f n (evStep f s e) := by
+  obtain ⟨h1, h2, h3⟩ := h
+  cases e with
+  | compute j =>
+    refine ⟨by simp [evStep, h1], by simp [evStep, h2], ?_⟩
+    intro i v hv
+    simp only [evStep, List.getElem?_set] at hv
+    by_cases hji : j = i
+    · subst hji
+      by_cases hl : j < s.slots.length
+      · simp [hl] at hv; exact hv.symm
+      · simp [hl] at hv
+    · simp [hji] at hv; exact h3 i v hv
+  | write j =>
+    rcases evStep_write_cases f s j with ⟨v, _, hw⟩ | hw
+    · rw [hw]; exact ⟨h1, by simp [h2], h3⟩
+    · rw [hw]; exact ⟨h1, h2, h3⟩
+
+theorem evGood_foldl {β} (f : Nat → β) (n : Nat) (evs : List Event) (s : EvState β)
+    (h : EvGood f n s) : EvGood f n (evs.foldl (evStep f) s) := by
+  induction evs generalizing s with
+  | nil => exact h
+  | cons e es ih => exact ih _ (evGood_step f n s e h)
+
+theorem slot_stable_step {β} (f : Nat → β) (s : EvState β) (e : Event) (i : Nat)
+    (h : s.slots[i]? = some (some (f i))) : (evStep f s e).slots[i]? = some (some (f i)) := by
+  cases e with
+  | compute j =>
+    simp only [evStep, List.getElem?_set]
+    by_cases hji : j = i
+    · subst hji
+      have hl : j < s.slots.length := lt_of_getElem?_some h
+      simp [hl]
+    · simp [hji, h]
+  | write j =>
+    rcases evStep_write_cases f s j with ⟨v, _, hw⟩ | hw
+    · rw [hw]; exact h
+    · rw [hw]; exact h
+
+theorem slot_stable_foldl {β} (f : Nat → β) (evs : List Event) (s : EvState β) (i : Nat)
+    (h : s.slots[i]? = some (some (f i))) :
+    (evs.foldl (evStep f) s).slots[i]? = some (some (f i)) := by
+  induction evs generalizing s with
+  | nil => exact h
+  | cons e es ih => exact ih _ (slot_stable_step f s e i h)
+
+theorem cell_stable_step {β} (f : Nat → β) (n : Nat) (s : EvState β) (e : Event) (i : Nat)
+    (hg : EvGood f n s) (h : s.cells[i]? = some (f i)) : (evStep f s e).cells[i]? = some (f i) := by
+  cases e with
+  | compute j => simpa [evStep] using h
+  | write j =>
+    rcases evStep_write_cases f s j with ⟨v, hv, hw⟩ | hw
+    · rw [hw]
+      have hv' : v = f j := hg.2.2 j v hv
+      simp only [List.getElem?_set]
+      by_cases hji : j = i
+      · subst hji
+        have hl : j < s.cells.length := lt_of_getElem?_some h
+        simp [hl, hv']
+      · simp [hji, h]
+    · rw [hw]; exact h
+
+theorem cell_stable_foldl {β} (f : Nat → β) (n : Nat) (evs : List Event) (s : EvState β) (i : Nat)
+    (hg : EvGood f n s) (h : s.cells[i]? = some (f i)) :
+    (evs.foldl (evStep f) s).cells[i]? = some (f i) := by
+  induction evs generalizing s with
+  | nil => exact h
+  | cons e es ih => exact ih _ (evGood_step f n s e hg) (cell_stable_step f n s e i hg h)
+
+/-- a task whose compute event precedes its write event leaves `f i` in its cell, whatever the
+other tasks' events do in between and afterwards -/
+theorem events_cell {β} (f : Nat → β) (n : Nat) (s : EvState β) (hg : EvGood f n s) (i : Nat)
+    (hi : i < n) (p1 p2 post : List Event) :
+    ((p1 ++ Event.compute i :: p2 ++ Event.write i :: post).foldl (evStep f) s).cells[i]? = some (f i) := by
+  rw [List.foldl_append, List.foldl_cons, List.foldl_append, List.foldl_cons]
+  have g1 := evGood_foldl f n p1 s hg
+  generalize p1.foldl (evStep f) s = s1 at g1
+  have hs1 : (evStep f s1 (Event.compute i)).slots[i]? = some (some (f i)) := by
+    simp [evStep, g1.1, hi]
+  have g2 := evGood_step f n s1 (Event.compute i) g1
+  generalize evStep f s1 (Event.compute i) = s2 at hs1 g2
+  have hs3 := slot_stable_foldl f p2 s2 i hs1
+  have g3 := evGood_foldl f n p2 s2 g2
+  generalize p2.foldl (evStep f) s2 = s3 at hs3 g3
+  have hc : (evStep f s3 (Event.write i)).cells[i]? = some (f i) := by
+    rw [evStep_write_some f s3 i (f i) hs3]
+    simp [g3.2.1, hi]
+  exact cell_stable_foldl f n post _ i (evGood_step f n s3 _ g3) hc
+
+theorem evGood_init {β} (f : Nat → β) (init : List β) :
+    EvGood f init.length { slots := List.replicate init.length none, cells := init } := by
+  refine ⟨by simp, rfl, ?_⟩
+  intro i v hv
+  simp only [List.getElem?_replicate] at hv
+  split at hv <;> cases hv
+
 end LinfaSpec.Determinism
